@@ -10,15 +10,16 @@ open Prog
 /-- `SortedBuffer::add` on the list of `Some` entries (the buffer is always a prefix of `Some`s).
     `le a b` is `a <= b` of the element order. -/
 def SortedBuffer.add {τ : Type} (le : τ → τ → Bool) (n : Nat) (buf : List τ) (value : τ) : List τ :=
-  let len := buf.length
-  -- position of the first element `v` with `value <= v`, or `len`
-  let pos := (buf.findIdx? (fun v => le value v)).getD len
-  if len < n then
-    buf.take pos ++ value :: buf.drop pos
-  else if pos > 0 then
-    -- full: drop the smallest, insert before `pos`
-    (buf.take pos).drop 1 ++ value :: buf.drop pos
-  else buf
+  -- `pos` = index of the first element `v` with `value <= v` (or `len`): `lo = buf[..pos]`
+  let lo := buf.takeWhile (fun v => !le value v)
+  let hi := buf.dropWhile (fun v => !le value v)
+  if buf.length < n then
+    -- shift `pos..len` (and the free slot) right by one
+    lo ++ value :: hi
+  else
+    match lo with
+    | [] => buf                        -- full and `value <= ` everything: ignored
+    | _ :: lo' => lo' ++ value :: hi   -- full: drop the smallest, insert before `pos`
 
 /-- derived `Ord` of `Policy` -/
 def Policy.le (a b : Policy) : Bool :=
